@@ -278,7 +278,7 @@ class Run:
         finally:
             self.dec()
             s = self.ev('exit-' + outcome, path)
-            rec.exit[i] = (s, self.now(), outcome, exc)
+            rec.exit[i] = (s, self.now(), outcome, exc, asyncio.current_task().cancelling())
 
     # ---- helper invocations ---------------------------------------------------------------
     async def call_gather(self, rec, counted):
@@ -483,7 +483,7 @@ class Run:
 # ------------------------------------------------------------------------------------------
 # oracle
 # ------------------------------------------------------------------------------------------
-K_PLUS_ONE = 'bound/bounded_gather-runs-parallelism-plus-one'
+K_PLUS_ONE = 'bound/bounded_gather-wrapper-runs-parallelism-plus-one'
 K_NOT_REACQ = 'sema/permit-not-reacquired-after-error'
 K_RAISE_IN_LOOP = 'cancel_on_error/raise-in-cancel-loop-skips-cancel-and-wait'
 K_ONLINE_EARLY = 'online/exit-before-cancelled-tasks-complete'
@@ -563,7 +563,7 @@ def judge(run):
                 if ex is None or ex[0] > rec.ret_seq:
                     out.append(('order/returned-before-body-finished', f'{where}: returned before body {i} finished'))
                     continue
-                _, _, oc, e = ex
+                _, _, oc, e = ex[:4]
                 if _is_ret(mode):
                     slot = val[i]
                     if not (isinstance(slot, tuple) and len(slot) == 2):
@@ -605,13 +605,15 @@ def judge(run):
                         out.append(('cancel_on_error/running-task-not-cancelled', desc))
                     else:
                         out.append((K_RAISE_IN_LOOP, desc + f' (failed task index {pivot}: later tasks not cancelled, earlier ones not awaited)'))
+                out.extend(ran_to_completion(rec, where, fails[0][0] if fails else None))
         elif isinstance(e, asyncio.CancelledError):
             if not rec.caller_cancelling and not run.cancel_delivered:
                 out.append(('raise/spurious-cancelled-error', f'{where}: raised CancelledError although nobody cancelled the caller'))
             if _is_coe(mode) and rec.pending_at_return:
                 if fails:
-                    # a body failure and the cancellation coincide: same code path as the failure exit
-                    out.append((K_RAISE_IN_LOOP, f'{where}: cancelled while a body had failed; tasks {[i for i, _ in rec.pending_at_return]} pending at exit'))
+                    # the caller was cancelled while the helper was already cancelling / waiting for its tasks because of
+                    # a failure: the request interrupts that wait; the statement does not say the wait must be shielded
+                    out.append(('-unspecified', 'caller cancelled during the clean-up after a failure'))
                 elif rec.caller_cancelling >= 2:
                     out.append(('-unspecified', 'caller cancelled twice: the second request interrupts the wait'))
                 else:
@@ -643,6 +645,7 @@ def judge_online(run, rec, where, fails):
                 out.append(('order/wrong-slot', f'{where}: task {i} result {t.result()!r}, body returned {value_of(rec, i)!r}'))
         return out
     e = val
+    cands = []
     if isinstance(e, Boom):
         cands = [(t, s, rec.exit[i][3]) for (t, s, i) in fails]
         if ctx is not None:
@@ -674,7 +677,20 @@ def judge_online(run, rec, where, fails):
             out.append(('online/running-task-not-cancelled', desc))
         else:
             out.append((K_ONLINE_EARLY, desc))
+    if isinstance(e, Boom) and cands:
+        out.extend(ran_to_completion(rec, where, cands[0][0]))
     return out
+
+
+def ran_to_completion(rec, where, t_fail):
+    """cancel the remaining work: after the first failure (logical time t_fail) no body that was never asked to cancel
+    may run on to a normal end while the helper is still inside (bodies ending after the return are judged elsewhere)"""
+    if t_fail is None:
+        return []
+    late = sorted(i for i, x in rec.exit.items() if x[2] == 'ok' and x[0] < rec.ret_seq and x[1] > t_fail and x[4] == 0)
+    if late:
+        return [('cancel/remaining-work-ran-to-completion', f'{where}: first failure at t={t_fail}, bodies {late} were never cancelled and finished normally later, before the helper came back at t={rec.ret_t}')]
+    return []
 
 
 def schedule_key(run):
@@ -703,8 +719,8 @@ def run(ctx):
 
     asyncio.create_task = recording_create_task
     try:
-        N = ctx.pick(6000, 40000)
-        ctx.set_time_budget(ctx.pick(40, 420))
+        N = ctx.pick(6000, 30000)
+        ctx.set_time_budget(ctx.pick(40, 400))
         for _i, rng in ctx.cases(N):
             case = gen_case(rng)
             loops = []
@@ -760,7 +776,7 @@ def run(ctx):
             seen_keys = set()
             for key, what in verdicts:
                 if key == '-unspecified':
-                    ctx.count('unspecified_cancelled_twice')
+                    ctx.count('unspecified_cancelled_during_cleanup_wait')
                     continue
                 if key in seen_keys:
                     continue
